@@ -6,9 +6,9 @@ IDS=${@:-$(ls -d seeded/*/ | xargs -n1 basename)}
 one() {
   id=$1; wt=/tmp/wt_rv_$id
   git -C /repo worktree add -q --detach $wt HEAD 2>/dev/null || { echo "$id WORKTREE-FAILED"; return; }
-  (cd $wt && PANDERA_UNDER_TEST=$wt timeout 300 /venv/bin/python /verif/seeded/$id/demo.py >/dev/null 2>&1); c=$?
+  (cd $wt && TREE_UNDER_TEST=$wt timeout 300 /venv/bin/python /verif/seeded/$id/demo.py >/dev/null 2>&1); c=$?
   git -C $wt apply /verif/seeded/$id/patch.diff 2>/dev/null || { echo "$id APPLY-FAILED"; git -C /repo worktree remove --force $wt; return; }
-  (cd $wt && PANDERA_UNDER_TEST=$wt timeout 300 /venv/bin/python /verif/seeded/$id/demo.py >/dev/null 2>&1); m=$?
+  (cd $wt && TREE_UNDER_TEST=$wt timeout 300 /venv/bin/python /verif/seeded/$id/demo.py >/dev/null 2>&1); m=$?
   git -C /repo worktree remove --force $wt
   st=OK; [ $c -ne 0 ] && st=CLEAN-FAILS; [ $m -eq 0 ] && st=MUTANT-PASSES
   echo "$id clean_rc=$c mutated_rc=$m $st"
